@@ -18,11 +18,12 @@
     - [closed_loop_clean false P = true] (Model/PolyAux.v; the property's general-position quantifier);
     - [closed_loop_wf P = true] (below): at every stage the attachment index is a position of the current outline,
       the start index is a position of the chosen hole, and no hole is chosen twice.  [scan_ext_cases] /
-      [hits_wf] show that this can only fail at a stage whose scan finds NO pair of vertices closer than
-      sqrt(9e14) = 3e7 (the constant the scan starts from): then the code re-merges hole 0.  [within_reach_wf]:
-      over the reals it holds whenever every loop has a vertex and any two vertices are closer than 3e7.  That this really
-      happens, and that the region is then NOT preserved, is [far_holes_refuted] at the end of this file
-      (binary64, a clean run). *)
+      [hits_wf] show that this can only fail at a stage whose scan finds NO pair of vertices closer than the value
+      the scan starts from.  Since fix f0d596d that value is Float::MAX ([scan_start false] = [nmaxf]), so over the reals
+      the condition holds whenever every loop has a vertex and the coordinates are below 2^500 ([within_reach_wf],
+      [bounded_coords_wf]).  Before the fix the scan started from 9e14 = (3e7)^2 and a hole farther than 3e7 from every
+      vertex of the current outline was never chosen (hole 0 was re-merged instead): [far_holes_pinned_refuted] at the
+      end of this file (binary64, pinned merge, a clean run); [far_holes_now_merged] is the same polygon on the live model. *)
 From Coq Require Import ZArith Reals Lra Lia Bool List Arith Permutation Floats Psatz.
 From G3 Require Import Model.Num Model.NumF Model.Base Model.Vec Model.Segment Model.Loop Model.Polygon Model.PolyAux Theory.RInst Theory.LoopGeom
   Proofs.C10_measures Proofs.C11_cut_hole Proofs.C12_merge Proofs.C12_edge_sum.
@@ -48,7 +49,7 @@ Section Trace.
     match count with
     | O => Some []
     | S c =>
-      let '(md, me, ml, il', iv') := scan_ext vs 0 (pinner P) processed (c9e14, O, O, il, iv_id) in
+      let '(md, me, ml, il', iv') := scan_ext vs 0 (pinner P) processed (scan_start false, O, O, il, iv_id) in
       match nth_error (pinner P) ml with
       | None => None
       | Some hole =>
@@ -64,7 +65,7 @@ Section Trace.
     option_map (apply_steps (lnormal (pouter P)) vs) (merge_trace P count vs processed il iv).
   Proof.
     induction count as [|c IH]; intros vs processed il iv; cbn [merge_spec merge_trace]; [reflexivity|].
-    destruct (scan_ext vs 0 (pinner P) processed (c9e14, 0, 0, il, iv)) as [[[[md me] ml] il'] iv'].
+    destruct (scan_ext vs 0 (pinner P) processed (scan_start false, 0, 0, il, iv)) as [[[[md me] ml] il'] iv'].
     destruct (nth_error (pinner P) ml) as [hole|]; [|reflexivity].
     rewrite IH. unfold step_walk at 1. cbn [ms_hole ms_id].
     destruct (merge_trace P c _ (processed ++ [il']) il' iv') as [tr|]; reflexivity.
@@ -75,7 +76,7 @@ Section Trace.
   Proof.
     induction count as [|c IH]; intros vs processed il iv tr; cbn [merge_trace].
     - intros H; injection H as H; subst tr. split; [reflexivity | constructor].
-    - destruct (scan_ext vs 0 (pinner P) processed (c9e14, 0, 0, il, iv)) as [[[[md me] ml] il'] iv'].
+    - destruct (scan_ext vs 0 (pinner P) processed (scan_start false, 0, 0, il, iv)) as [[[[md me] ml] il'] iv'].
       destruct (nth_error (pinner P) ml) as [hole|] eqn:En; [|discriminate].
       destruct (merge_trace P c _ (processed ++ [il']) il' iv') as [tr'|] eqn:Et; [|discriminate].
       cbn [option_map]. intros H; injection H as H; subst tr. destruct (IH _ _ _ _ _ Et) as [Hl Hf].
@@ -540,8 +541,9 @@ Theorem no_holes_region {K : Type} {NK : Num K} (P : Poly K) : pinner P = [] ->
 Proof. intros H. exists (loop_open (pouter P)). split; [apply no_holes_unchanged; exact H | reflexivity]. Qed.
 
 (** ** when is the trace well formed?  Whenever every stage's scan finds a pair of vertices closer than the
-    constant it starts from (squared distance < 9e14).  A scan that finds none keeps its initial state:
-    attachment index 0, hole index 0, the previous start index -- the code then merges hole 0 (again). *)
+    value it starts from ([scan_start false] = Float::MAX since fix f0d596d; it was 9e14 = (3e7)^2 before).  A scan that
+    finds none keeps its initial state: attachment index 0, hole index 0, the previous start index -- the code then
+    merges hole 0 (again); this is what happened on the pinned tree for holes farther than 3e7 from the outline. *)
 Section ScanFacts.
   Context {K : Type} {NK : Num K}.
   Notation V := (V3 K).
@@ -589,8 +591,8 @@ Section ScanFacts.
     match count with
     | O => true
     | S c =>
-      let '(md, me, ml, il', iv') := scan_ext vs 0 (pinner P) processed (c9e14, O, O, il, iv_id) in
-      (md <? c9e14) &&
+      let '(md, me, ml, il', iv') := scan_ext vs 0 (pinner P) processed (scan_start false, O, O, il, iv_id) in
+      (md <? scan_start false) &&
       match nth_error (pinner P) ml with
       | None => false
       | Some hole =>
@@ -599,7 +601,7 @@ Section ScanFacts.
     end.
   Definition closed_loop_hits (P : Poly K) : bool := merge_hits P (length (pinner P)) (verts (pouter P)) [] 0 0.
 
-  Hypothesis lt_irrefl : ((c9e14 : K) <? c9e14) = false.
+  Hypothesis lt_irrefl : ((scan_start false : K) <? scan_start false) = false.
 
   Lemma existsb_app_false (x : nat) (l1 l2 : list nat) : existsb (Nat.eqb x) (l1 ++ l2) = false ->
     existsb (Nat.eqb x) l1 = false /\ existsb (Nat.eqb x) l2 = false.
@@ -613,7 +615,7 @@ Section ScanFacts.
   Proof.
     induction count as [|c IH]; intros vs processed il iv; cbn [merge_hits merge_trace].
     - intros _. exists []. repeat split. intros s [].
-    - destruct (scan_ext_cases (pinner P) processed vs 0 (c9e14, 0, 0, il, iv)) as [E|[d [j' [k' [l' [h [E [Hj [Hn [Hl Hp]]]]]]]]]]; rewrite E.
+    - destruct (scan_ext_cases (pinner P) processed vs 0 (scan_start false, 0, 0, il, iv)) as [E|[d [j' [k' [l' [h [E [Hj [Hn [Hl Hp]]]]]]]]]]; rewrite E.
       + rewrite lt_irrefl. discriminate.
       + rewrite Hn. intros H. apply andb_prop in H. destruct H as [_ H].
         destruct (IH _ _ _ _ H) as [tr [Et [Hb [Hd Hq]]]]. unfold step_walk at 1. cbn [ms_hole ms_id]. rewrite Et. cbn [option_map].
@@ -635,7 +637,7 @@ Section ScanFacts.
   Qed.
 End ScanFacts.
 
-(** on the reals: [9e14 < 9e14] is false *)
+(** on the reals: [Float::MAX < Float::MAX] is false *)
 Theorem hits_wf_R (P : Poly R) : closed_loop_hits P = true -> closed_loop_wf P = true.
 Proof. apply hits_wf. apply Rltb_false. apply Rle_refl. Qed.
 
@@ -674,7 +676,7 @@ Section MergedNormal.
   Proof.
     induction count as [|c IH]; intros P ret processed il iv tr; cbn [merge_clean merge_trace].
     - intros _ H. injection H as H. subst tr. constructor.
-    - destruct (scan_ext (verts ret) 0 (pinner P) processed (c9e14, 0, 0, il, iv)) as [[[[md me] ml] il'] iv'].
+    - destruct (scan_ext (verts ret) 0 (pinner P) processed (scan_start false, 0, 0, il, iv)) as [[[[md me] ml] il'] iv'].
       destruct (nth_error (pinner P) ml) as [hole|]; [|discriminate].
       destruct (Nat.eqb (llen hole) 0) eqn:En; [discriminate|]. cbn [negb andb]. apply Nat.eqb_neq in En.
       destruct (rebuild false (lnormal (pouter P)) (verts ret) 0 me hole iv' loop_new) as [aux| |] eqn:Er; try discriminate.
@@ -736,7 +738,7 @@ Section MergedNormal.
   Proof.
     induction count as [|c IH]; intros P ret processed il iv L; cbn [merge_clean merge_holes].
     - intros _ H. inversion H; subst. left. split; reflexivity.
-    - destruct (scan_ext (verts ret) 0 (pinner P) processed (c9e14, 0, 0, il, iv)) as [[[[md me] ml] il'] iv'].
+    - destruct (scan_ext (verts ret) 0 (pinner P) processed (scan_start false, 0, 0, il, iv)) as [[[[md me] ml] il'] iv'].
       destruct (nth_error (pinner P) ml) as [hole|]; [|discriminate].
       destruct (Nat.eqb (llen hole) 0) eqn:En; [discriminate|]. cbn [negb andb]. apply Nat.eqb_neq in En.
       destruct (rebuild false (lnormal (pouter P)) (verts ret) 0 me hole iv' loop_new) as [aux| |] eqn:Er; try discriminate.
@@ -850,8 +852,9 @@ Proof.
   apply (merged_normal_planar P o L Hc Hu Hpl HL Hcl).
 Qed.
 
-(** ** a geometric sufficient condition (reals): if the outline and every hole have a vertex and any two vertices of
-    the polygon are closer than sqrt(9e14) = 3e7, every stage's scan hits, hence the trace is well formed *)
+(** ** a sufficient condition (reals): if the outline and every hole have a vertex and any two vertices of the polygon
+    are at squared distance below Float::MAX (the value the scan starts from since fix f0d596d; 2^1024 on the real instance),
+    every stage's scan hits, hence the trace is well formed.  [bounded_coords_wf]: coordinates up to 2^500 suffice. *)
 Section Bounded.
   Local Open Scope R_scope.
   Definition st_md (st : @Sst R) : R := fst (fst (fst (fst st))).
@@ -898,7 +901,7 @@ Section Bounded.
 
   Definition within_reach (P : Poly R) : Prop :=
     verts (pouter P) <> [] /\ (forall h, In h (pinner P) -> verts h <> []) /\
-    forall a b, In a (poly_verts P) -> In b (poly_verts P) -> psqdist a b < c9e14.
+    forall a b, In a (poly_verts P) -> In b (poly_verts P) -> psqdist a b < nmaxf.
 
   Lemma unprocessed_exists (n : nat) (processed : list nat) : (length processed < n)%nat ->
     exists k, (k < n)%nat /\ existsb (Nat.eqb k) processed = false.
@@ -923,14 +926,15 @@ Section Bounded.
     destruct (nth_error (pinner P) k) as [h|] eqn:En; [|apply nth_error_None in En; lia].
     pose proof (nth_error_In _ _ En) as Ih.
     destruct vs as [|ev vs']; [contradiction|]. destruct (verts h) as [|hv hvs'] eqn:Ehv; [exfalso; apply (Hh h Ih); exact Ehv|].
-    pose proof (proj2 (sext_min (pinner P) processed (ev :: vs') 0 (c9e14, 0, 0, il, iv)%nat) ev k h hv (or_introl eq_refl) En Hp) as Hmin.
+    change (@scan_start R NumR false) with (@nmaxf R NumR).
+    pose proof (proj2 (sext_min (pinner P) processed (ev :: vs') 0 (nmaxf, 0, 0, il, iv)%nat) ev k h hv (or_introl eq_refl) En Hp) as Hmin.
     rewrite Ehv in Hmin. specialize (Hmin (or_introl eq_refl)).
-    assert (Hb : psqdist ev hv < c9e14).
+    assert (Hb : psqdist ev hv < nmaxf).
     { apply Hd; [apply Hin; left; reflexivity|]. unfold poly_verts. apply in_or_app. right. apply in_flat_map. exists h. split; [exact Ih|]. rewrite Ehv. left; reflexivity. }
-    destruct (scan_ext_cases (pinner P) processed (ev :: vs') 0 (c9e14, 0, 0, il, iv)%nat) as [E|[d [j' [k' [l' [h' [E [Hj [Hn' [Hl' Hp']]]]]]]]]]; rewrite E in *.
+    destruct (scan_ext_cases (pinner P) processed (ev :: vs') 0 (nmaxf, 0, 0, il, iv)%nat) as [E|[d [j' [k' [l' [h' [E [Hj [Hn' [Hl' Hp']]]]]]]]]]; rewrite E in *.
     - exfalso. unfold st_md in Hmin. cbn [fst] in Hmin. lra.
     - unfold st_md in Hmin. cbn [fst] in Hmin. rewrite Hn'.
-      assert (Ed : (d <? c9e14)%num = true) by (rnum; apply Rltb_true; lra). rewrite Ed. cbn [andb].
+      assert (Ed : (d <? nmaxf)%num = true) by (apply Rltb_true; lra). rewrite Ed. cbn [andb].
       pose proof (nth_error_In _ _ Hn') as Ih'.
       apply IH.
       + intros C. assert (I0 : In ev (splice (ev :: vs') 0 j' (walk_list false (vis_same_direction (lnormal (pouter P)) (lnormal h')) (verts h') l')))
@@ -946,6 +950,30 @@ Section Bounded.
       intros v Hv. unfold poly_verts. apply in_or_app. left. exact Hv. }
     split; [exact Hh | apply hits_wf_R; exact Hh].
   Qed.
+  (** the hypothesis is very weak: coordinates bounded by 2^500 in absolute value suffice *)
+  Definition coord_bound (B : R) (v : V) : Prop := Rabs (vx v) <= B /\ Rabs (vy v) <= B /\ Rabs (vz v) <= B.
+  Lemma abs_le_inv (x B : R) : Rabs x <= B -> - B <= x <= B.
+  Proof. unfold Rabs. destruct (Rcase_abs x); lra. Qed.
+  Lemma sq_diff_bound (x y B : R) : - B <= x <= B -> - B <= y <= B -> (x - y) * (x - y) <= 4 * (B * B).
+  Proof. intros. nra. Qed.
+  Lemma psqdist_bound (a b : V) : coord_bound (IZR (2 ^ 500)) a -> coord_bound (IZR (2 ^ 500)) b -> psqdist a b < nmaxf.
+  Proof.
+    destruct a as [a1 a2 a3], b as [b1 b2 b3]. unfold coord_bound, psqdist. cbn [vx vy vz]. rnum.
+    intros (A1 & A2 & A3) (B1 & B2 & B3).
+    apply abs_le_inv in A1, A2, A3, B1, B2, B3.
+    assert (Q : IZR (2 ^ 500) * IZR (2 ^ 500) = IZR (2 ^ 1000)) by (rewrite <- mult_IZR; f_equal).
+    assert (T : 12 * IZR (2 ^ 1000) < IZR (2 ^ 1024)) by (rewrite <- mult_IZR; apply IZR_lt; reflexivity).
+    pose proof (sq_diff_bound _ _ _ A1 B1). pose proof (sq_diff_bound _ _ _ A2 B2). pose proof (sq_diff_bound _ _ _ A3 B3).
+    rewrite Q in *. lra.
+  Qed.
+  Theorem bounded_coords_wf (P : Poly R) :
+    verts (pouter P) <> [] -> (forall h, In h (pinner P) -> verts h <> []) ->
+    (forall v, In v (poly_verts P) -> coord_bound (IZR (2 ^ 500)) v) ->
+    closed_loop_hits P = true /\ closed_loop_wf P = true.
+  Proof.
+    intros Ho Hh Hb. apply within_reach_wf. split; [exact Ho|]. split; [exact Hh|].
+    intros a b Ha Hb'. apply psqdist_bound; apply Hb; assumption.
+  Qed.
 End Bounded.
 
 (** *** with no holes: the same vertex list, hence the same winding numbers, planar area and Newell vector *)
@@ -956,32 +984,48 @@ Theorem no_holes_region_R (pr : V -> Winding.P2) (P : Poly R) (d q : Winding.P2)
     LoopGeom.newell (verts L) = LoopGeom.newell (verts (pouter P)).
 Proof. intros H. destruct (no_holes_region P H) as [L [HL E]]. exists L. rewrite E. repeat split. exact HL. Qed.
 
-(** ** the hypothesis [closed_loop_wf] cannot be dropped: a hole farther than 3e7 from every vertex of the current
-    outline is never chosen (binary64).  Outer square of side 1e8, hole 0 near the corner (1e8,1e8), hole 1 at the centre:
-    the run is clean, both stages merge hole 0, no vertex of hole 1 occurs in the result, and the closed merged loop
-    reports an area more than 3e11 below the polygon's (hole 0 subtracted twice, hole 1 not at all).
-    Reproduced on the real crate with `g3harness replay C12` (NOTES.md). *)
+(** ** the defect repaired by fix f0d596d (binary64).  The PINNED merge ([poly_get_closed_loop_gen true]: scan started from
+    9e14, wrapped index cast) on a square of side 1e8 with hole 0 near the corner (1e8,1e8) and hole 1 at the centre, both
+    wound AGAINST the outline (forward walk: the wrapped cast is not exercised, the only defect in play is the 9e14 start):
+    the run is clean, the result has 14 vertices, contains hole 0 but no vertex of hole 1, and the closed merged loop reports an
+    area more than 3e11 below the polygon's (hole 0 subtracted twice, hole 1 not at all).  Reproduced on the crate before the fix
+    with `g3harness replay C12`.  The LIVE model on the same polygon: clean, hits, well formed, both holes present, closed
+    area = the polygon's area. *)
 Section FarHoles.
   Set Warnings "-inexact-float".
   Definition mkf (pts : list (V3 float)) : Loop float := fst (loop_run loop_new (map (fun p => LPush p) pts ++ [LClose])).
   Definition far_outer := mkf [mkV3 0 0 0; mkV3 1e8 0 0; mkV3 1e8 1e8 0; mkV3 0 1e8 0]%float.
-  Definition far_hole0 := mkf [mkV3 9.8e7 9.7e7 0; mkV3 9.9e7 9.75e7 0; mkV3 9.85e7 9.9e7 0]%float.
-  Definition far_hole1 := mkf [mkV3 5e7 5e7 0; mkV3 5.1e7 5e7 0; mkV3 5e7 5.1e7 0]%float.
+  Definition far_hole0 := mkf [mkV3 9.8e7 9.7e7 0; mkV3 9.85e7 9.9e7 0; mkV3 9.9e7 9.75e7 0]%float.
+  Definition far_hole1 := mkf [mkV3 5e7 5e7 0; mkV3 5e7 5.1e7 0; mkV3 5.1e7 5e7 0]%float.
   Definition far_witness : res (Poly float) := do P0 <- poly_new far_outer; do P1 <- poly_cut_hole P0 far_hole0; poly_cut_hole P1 far_hole1.
   Definition occurs_in (vs : list (V3 float)) (v : V3 float) : bool :=
     existsb (fun w => PrimFloat.eqb (vx v) (vx w) && PrimFloat.eqb (vy v) (vy w) && PrimFloat.eqb (vz v) (vz w)) vs.
-  Theorem far_holes_refuted : exists (P : Poly float) (L : Loop float),
+  Theorem far_holes_pinned_refuted : exists (P : Poly float) (L : Loop float),
     far_witness = Ok P /\ pinner P = [far_hole0; far_hole1] /\
-    closed_loop_clean false P = true /\ closed_loop_hits P = false /\ closed_loop_wf P = false /\
-    option_map (map ms_ml) (closed_loop_trace P) = Some [0; 0] /\
-    poly_get_closed_loop P = Ok L /\ llen L = 14 /\
+    map (fun h => vis_same_direction (lnormal (pouter P)) (lnormal h)) (pinner P) = [false; false] /\
+    closed_loop_clean true P = true /\
+    poly_get_closed_loop_gen true P = Ok L /\ llen L = 14 /\
+    forallb (occurs_in (verts L)) (verts far_hole0) = true /\
     forallb (fun v => negb (occurs_in (verts L) v)) (verts far_hole1) = true /\
     snd (loop_close L) = Ok tt /\
     PrimFloat.ltb (larea (fst (loop_close L))) (parea P - 3e11)%float = true.
   Proof.
     eexists. eexists. split; [vm_compute; reflexivity|]. split; [vm_compute; reflexivity|].
     split; [vm_compute; reflexivity|]. split; [vm_compute; reflexivity|]. split; [vm_compute; reflexivity|].
-    split; [vm_compute; reflexivity|]. split; [vm_compute; reflexivity|].
+    vm_compute. repeat split; reflexivity.
+  Qed.
+  Theorem far_holes_now_merged : exists (P : Poly float) (L : Loop float),
+    far_witness = Ok P /\
+    closed_loop_clean false P = true /\ closed_loop_hits P = true /\ closed_loop_wf P = true /\
+    option_map (map ms_ml) (closed_loop_trace P) = Some [0; 1] /\
+    poly_get_closed_loop P = Ok L /\ llen L = 14 /\
+    forallb (occurs_in (verts L)) (verts far_hole0) = true /\ forallb (occurs_in (verts L)) (verts far_hole1) = true /\
+    snd (loop_close L) = Ok tt /\
+    PrimFloat.leb (PrimFloat.abs (larea (fst (loop_close L)) - parea P)) (1e-12 * parea P)%float = true.
+  Proof.
+    eexists. eexists. split; [vm_compute; reflexivity|]. split; [vm_compute; reflexivity|].
+    split; [vm_compute; reflexivity|]. split; [vm_compute; reflexivity|]. split; [vm_compute; reflexivity|].
+    split; [vm_compute; reflexivity|].
     vm_compute. repeat split; reflexivity.
   Qed.
 End FarHoles.
